@@ -71,3 +71,12 @@ for nw, tier, to in ((2, "quick", 600), (3, "thorough", 3000)):
         assumptions=["struct bitstream invariant: live<=32 on entry and bits below the live ones are zero",
                      "scan() may start matching anywhere up to the skip point rounded up to a word boundary (what do_scan relies on)"],
         outside=["input blocks longer than %d words (the scanner state is a 48-state automaton, longer blocks only repeat the word loop)" % nw])
+
+# ------------------------------------------------------------------------------- C05/C06 delta-coded code lengths
+DELTA_FUNCS = ["src/decode.c:retrieve (states S_SELECTOR_MTF, S_DELTA_TAG)", "src/decode.c:L[]/R[] delta tables", "src/decode.c:NEED/PEEK/DUMP macros"]
+for nm, ent, what in (("delta_window", "h_delta_window", "one 6-bit delta window from an arbitrary mid-table state (alphabet 3..258, any symbol index, running length 1..20, any 32-bit input word)"),
+                      ("delta_start", "h_delta_start", "5-bit start value 0..31 plus the first window of a table (any 32-bit input word)")):
+    add(nm, "h_delta.c", ent, {"C05": "quick", "C06": "quick"}, cbmc=["--unwind", "8", "--unwindset", "retrieve.3:3"], backend="sat", timeout=300, mem_gb=8,
+        extra_src=["crctab.c"], functions=DELTA_FUNCS, bounds=what + "; inductive step: sequences of any length follow",
+        assumptions=["execution cut at hook VERIF_POINT(DELTA_DONE) (table complete; make_tree() is checked by the tree obligations)",
+                     "strict reference = bzip2 1.0.x rule: running length within 1..20 before every bit read"])
